@@ -129,7 +129,7 @@ def directed_tree_jobs():
 def run_tree(check):
     jobs = [(t, {'shape': 'bare'}, sc) for t, sc in directed_tree_jobs()] + [(None, None, None)] * N
     for text, meta, script in jobs:
-        if text is None: text, meta = gen_doc(R, scoped=False, quoted=0.15, tiny=0.12)
+        if text is None: text, meta = gen_doc(R, scoped=False, quoted=0.15, tiny=0.12, attrpath_nested=R.random() < 0.3)
         src = parse(text); cur = text; ops = []
         for step in range(len(script) if script else R.randint(1, 5)):
             op, kind = (script[step], 'directed') if script else gen_op(cur, step, False)
